@@ -260,6 +260,35 @@ def ob_collate(ctx, D):
     ctx.eq(torch.tensor([len(out["pair"].grids())]), torch.tensor([4]), "collate batches: one grid per image of every sample")
 
 
+def ob_flow_mixed_axes(ctx, D, fn, pos, count):
+    """Several FlowFields operands in one call: a result that is a FlowFields declares ONE vector representation, so
+    operands given in different representations must be rejected (or converted) wherever the odd one stands."""
+    from deepali.data.flow import FlowFields
+
+    sizes = [3, 2, 2][:D]
+    shape = tuple(reversed(sizes))
+    n = D
+    for m in shape:
+        n *= m
+    ops = []
+    g, _ = sym_grid(ctx, "g", D, ctx.seed, 0, sizes=sizes, rotation=False)
+    for k in range(count):
+        v = ctx.reals(f"I{k}v", [((7 * i + 3 * k) % 11) / 8 + 0.125 for i in range(n)], nice=(-8, 8)).reshape((1, D) + shape)
+        ops.append(FlowFields(v, g, "world"))
+    world = [f.tensor().clone() for f in ops]
+    ops[pos] = ops[pos].axes("cube")  # the same displacement, other representation
+    try:
+        res = torch.cat(ops, dim=0) if fn == "cat" else torch.stack([o[0] for o in ops], dim=0)
+    except ValueError:
+        ctx.true(torch.tensor([True]), f"{fn} of {count} flow fields, operand {pos} in another representation: rejected")
+        return
+    if isinstance(res, FlowFields):
+        back = res.axes("world").tensor()
+        ctx.eq(back, torch.cat(world, dim=0), f"{fn} of {count} flow fields, operand {pos} in another representation: entries mean the same displacements under the declared axes")
+    else:
+        ctx.true(torch.tensor([True]), f"{fn}: plain tensor result")
+
+
 def obligations(tier: str, seed: int):
     obs = []
     for D in (2, 3):
@@ -279,4 +308,8 @@ def obligations(tier: str, seed: int):
             for first in ("identity-ops", "reorder", "getitem-lists", "narrow-select", "copies", "cat-stack"):
                 for second in seconds:
                     obs.append((f"image-D{D}-{first}-then-{second}", ob_program2, dict(D=D, kind="image", first=first, second=second)))
+    for D in (2, 3):
+        for count in (2, 3, 4):
+            for pos in range(count):
+                obs.append((f"flow-mixed-axes-D{D}-cat-{count}-{pos}", ob_flow_mixed_axes, dict(D=D, fn="cat", pos=pos, count=count)))
     return obs
